@@ -111,7 +111,7 @@ def handle' (req : SExp) : SExp :=
     | some f, some p, some pa =>
       let i := implResolve f p pa
       let s := specResolve f p pa
-      .list [.atom "ok", sOutcome i, sSpec s, sBool (agrees i s), .list ((causes f p pa).map .atom)]
+      .list [.atom "ok", sOutcome i, sSpec s, sBool (agrees i s), .list ((causes f p pa).map .atom), sBool (InFragment p pa)]
     | _, _, _ => .list [.atom "bad-arg"]
   | .list [.atom "history", .atom fuel, prog, .list paths] =>
     match fuel.toNat?, decExpr prog, decPaths paths with
